@@ -40,6 +40,7 @@ func TestVerifC14Config(t *testing.T) {
 		"2001:db8::/64",    // 10 a prefix, not an address
 		"ff02::fb",         // 11 sorts last
 		"::1",              // 12 sorts first
+		"fe80::1%eth0",     // 13 = 4 with a zone (accepting both puts fe80::1 into the option twice)
 	}
 	addrLists := [][]system.IP{
 		{verifw.IP("fd00::53/64", "f"), verifw.IP("2001:db8::1/64", "")},
@@ -58,6 +59,8 @@ func TestVerifC14Config(t *testing.T) {
 				raw = append(raw, "RSbad")
 			case !ip.Is6() || ip.Is4In6():
 				raw = append(raw, "RSnot6")
+			case ip.Zone() != "":
+				raw = append(raw, verifh.App("RSzone", verifw.AddrN(ip)))
 			default:
 				raw = append(raw, verifh.App("RS6", verifw.AddrN(ip)))
 			}
